@@ -354,3 +354,69 @@ theorem invP_crashStates (fs0 : FS) (f : Path) (B : Bytes) (hf : isKeyPath f = t
     · exact ih (fs.step op) (invP_step fs0 f B hf fs op hi ha.1) ha.2 fs' hm
 
 end Cotengra.Crash
+
+/-! ### layout: nothing but directories below the root of a split cache -/
+namespace Cotengra.Crash
+
+/-- no regular file directly below the cache directory -/
+def RootNoFiles (fs : FS) : Prop := ∀ n, fs.files [n] = none
+
+theorem rootNoFiles_step (fs : FS) (op : Op) (h : RootNoFiles fs) (hok : rootClean true op = true) :
+    RootNoFiles (fs.step op) := by
+  intro n
+  unfold FS.step
+  split
+  · rename_i hc
+    cases op with
+    | mkdir p => exact h n
+    | create p =>
+      have hp : p.length ≠ 1 := by simpa [rootClean] using hok
+      simp only [files_setFile]
+      rw [if_neg (fun e => hp (by rw [← e]; rfl))]
+      exact h n
+    | append p b =>
+      simp only [files_setFile]
+      by_cases e : [n] = p
+      · subst e
+        simp [FS.canStep, h n] at hc
+      · rw [if_neg e]; exact h n
+    | rename s d =>
+      have hd : d.length ≠ 1 := by simpa [rootClean] using hok
+      simp only [files_setFile]
+      by_cases e1 : [n] = s
+      · simp [e1]
+      · rw [if_neg e1, if_neg (fun e => hd (by rw [← e]; rfl))]
+        exact h n
+    | unlink p =>
+      simp only [files_setFile]
+      by_cases e : [n] = p
+      · simp [e]
+      · rw [if_neg e]; exact h n
+  · exact h n
+
+theorem rootNoFiles_crashStates : ∀ (ops : List Op) (fs : FS), RootNoFiles fs → layoutOK true ops = true →
+    ∀ fs' ∈ crashStates fs ops, RootNoFiles fs' := by
+  intro ops
+  induction ops with
+  | nil =>
+    intro fs h _ fs' hm
+    simp only [crashStates, List.mem_singleton] at hm
+    rw [hm]; exact h
+  | cons op rest ih =>
+    intro fs h hl fs' hm
+    simp only [layoutOK, List.all_cons, Bool.and_eq_true] at hl
+    simp only [crashStates, List.mem_cons, List.mem_append] at hm
+    rcases hm with rfl | hm | hm
+    · exact h
+    · cases op with
+      | append p b =>
+        simp only [partials, List.mem_map, List.mem_range] at hm
+        obtain ⟨j, _, rfl⟩ := hm
+        exact rootNoFiles_step fs _ h rfl
+      | mkdir p => simp [partials] at hm
+      | create p => simp [partials] at hm
+      | unlink p => simp [partials] at hm
+      | rename s d => simp [partials] at hm
+    · exact ih (fs.step op) (rootNoFiles_step fs op h hl.1) (by simpa [layoutOK] using hl.2) fs' hm
+
+end Cotengra.Crash
